@@ -66,6 +66,7 @@ def etc_image(alpha, blocks, rng):
 
 class C19(PropertyCheck):
     pid = "C19"
+    source_tables = ["Tile", "Etc1", "Pixel"]   # tables / constants regenerated from /repo's source (gen/srctables.py)
     release_too = True
     rule = ("streams: every 16-bit value of RGBA5551/RGB565/RGBA4/LA8 and every 8-bit value of L8/A8 (model-compared in 32x32 textures, plus one "
             "256x256 texture per format for the oracle), RGBA8 byte sweeps; all 25 power-of-two sizes 8..128 x 9 formats with random payloads; ETC1 "
